@@ -90,6 +90,27 @@ def run(ctx):
             ctx.fail('C12/auxdata-count', 'auxdata does not have one entry per constrained component', inp, c.nauxdata, ncon)
         if c.poi_index != c.par_slice('mu').start:
             ctx.fail('C12/poi-index', 'poi_index is not the start of the POI slice', inp, c.poi_index, c.par_slice('mu').start)
+        # ---- every one-component parameter set can be the POI: its index is the start of its own slice; a multi-component one is refused
+        for n in c.par_order:
+            npar_n = c.param_set(n).n_parameters
+            try:
+                mq = pyhf.Model(spec, poi_name=n); errq = None
+            except Exception as e:  # noqa
+                mq = None; errq = type(e).__name__
+            ctx.tally('poi_candidate', 'scalar' if npar_n == 1 else 'vector')
+            if npar_n == 1:
+                if mq is None:
+                    ctx.fail('C12/poi-rejected', 'a one-component parameter was refused as POI', dict(inp, poi=n), errq); continue
+                cq = mq.config
+                if cq.poi_name != n or cq.poi_index != cq.par_slice(n).start or cq.par_names[cq.poi_index] not in (n, n + '[0]'):
+                    ctx.fail('C12/poi-index', 'poi_index is not the position of the POI in the parameter vector', dict(inp, poi=n),
+                             [cq.poi_name, cq.poi_index, cq.par_names[cq.poi_index]], [n, cq.par_slice(n).start])
+                if n != 'mu' and c.param_set(n).n_parameters == 1 and rng.random() < 0.3:
+                    merr_q, res_q = enga.model_call(lean, spec, enga.settings(poi=n), [{'q': 'config'}])
+                    if merr_q is None and enga.model_config(res_q[0]).get('poi_index') != cq.poi_index:
+                        ctx.disagree('config.poi_index', dict(inp, poi=n), enga.model_config(res_q[0]).get('poi_index'), cq.poi_index)
+            elif mq is not None or errq != 'InvalidModel':
+                ctx.fail('C12/poi-vector-accepted', 'a multi-component parameter set was not refused as POI with InvalidModel', dict(inp, poi=n), errq)
         # ---- oracle: overrides verbatim, defaults otherwise
         init, bounds, fixed = c.suggested_init(), c.suggested_bounds(), c.suggested_fixed()
         aux_pos = {}
